@@ -639,8 +639,16 @@ def check_c2s(case):
     try:
         with cy.quiet():
             se = s.casadi_to_sympy(expr, syms)
-    except Exception:
-        return  # "constructs it cannot represent raise an error": allowed
+    except Exception as ex:
+        # "constructs it cannot represent raise an error": allowed - but not for an expression made only of the
+        # constructs the property lists as accepted (arithmetic, integer powers and roots, trigonometric functions,
+        # comparisons and their combinations, min/max, fmod/remainder, selections, matrices)
+        # (only the converter's own "unsupported" signal counts: SymPy itself may refuse to build e.g. Max(x, asin(2))
+        # when a branch that is never selected lies outside the real domain - that is an error raised, which is allowed)
+        if isinstance(ex, NotImplementedError) and _c2s_must_accept(t):
+            raise Violation("casadi_to_sympy declared unsupported (NotImplementedError) an expression made only of constructs it is "
+                            "stated to accept: %s" % str(expr)[:200], tree=t)
+        return
     smap = {str(k): v for k, v in syms.items()}
     items = [(i, j, se[i, j]) for i in range(se.shape[0]) for j in range(se.shape[1])] if isinstance(se, sympy.MatrixBase) else [(0, 0, se)]
     if isinstance(se, sympy.MatrixBase) and tuple(se.shape) != got.shape:
@@ -696,6 +704,17 @@ def check_c2s(case):
                 str(expr[i, j])[:160], g, {n: case["point"][n] for n in names}, str(e)[:160], vv), tree=t, point=case["point"])
         checked += 1
     require(checked > 0)
+
+
+C2S_MUST = {"sym", "const", "add", "sub", "mul", "div", "neg", "sq", "twice", "inv", "sqrt", "sin", "cos", "tan", "asin", "acos", "atan",
+            "atan2", "fmin", "fmax", "fmod", "remainder", "lt", "le", "eq", "ne", "gt", "ge", "and", "or", "not", "if_else",
+            "if_else_zero", "fabs", "sign", "floor", "mat"}
+
+
+def _c2s_must_accept(t):
+    if t[0] == "mat":
+        return all(_c2s_must_accept(e) for row in t[1] for e in row)
+    return ops_of(t) <= C2S_MUST
 
 
 def _exact_tie_ok(t):
